@@ -46,13 +46,57 @@ def _format_layout(fmt):
     return out, order
 
 
+def _loc_stores(fn, fields):
+    """[(field, position in the source list, text of the object, text of the source list)] for every store of
+    ``<obj>.<field>`` in fn; recognised shapes: tuple/list unpacking ``a.x, a.y = src`` (position = place in the
+    target) and ``a.x = src[<int>]``.  Any other store of a location field is an unknown shape."""
+    out = []
+    seen = set()
+    for n in walk_local(fn):
+        if isinstance(n, ast.Assign):
+            for t in n.targets:
+                if isinstance(t, (ast.Tuple, ast.List)):
+                    starred = any(isinstance(e, ast.Starred) for e in t.elts)
+                    for i, e in enumerate(t.elts):
+                        if isinstance(e, ast.Attribute) and e.attr in fields:
+                            if starred or isinstance(n.value, (ast.Tuple, ast.List)):
+                                raise AnalysisError(f"{LJ}:{qual_of(fn) or fn.name}: location field stored in an unrecognised shape: `{short(n, 70)}`")
+                            out.append((e.attr, i, unparse(e.value), unparse(n.value)))
+                            seen.add(id(e))
+                elif isinstance(t, ast.Attribute) and t.attr in fields:
+                    v = n.value
+                    k = const_value(v.slice) if isinstance(v, ast.Subscript) else None
+                    if not isinstance(k, int) or isinstance(k, bool) or k < 0:
+                        raise AnalysisError(f"{LJ}:{qual_of(fn) or fn.name}: location field stored in an unrecognised shape: `{short(n, 70)}`")
+                    out.append((t.attr, k, unparse(t.value), unparse(v.value)))
+                    seen.add(id(t))
+    for n in walk_local(fn):
+        if isinstance(n, ast.Attribute) and n.attr in fields and isinstance(n.ctx, (ast.Store, ast.Del)) and id(n) not in seen:
+            raise AnalysisError(f"{LJ}:{qual_of(fn) or fn.name}: location field stored in an unrecognised shape: `{short(enclosing_stmt(n), 70)}`")
+    return out
+
+
+def _index_reader(ctx, lj, fields):
+    """(helper-transparent view, qualified name, location stores) of the index reader of the container module,
+    found by role - the one function whose own body stores the location fields on the object - not by name"""
+    cands = []
+    for q, fn in lj.functions():
+        if any(isinstance(n, ast.Attribute) and n.attr in fields and isinstance(n.ctx, (ast.Store, ast.Del)) for n in walk_local(fn)):
+            cands.append((q, fn))
+    if len(cands) != 1:
+        raise AnalysisError(f"{LJ}: the index reader (the function that stores the location fields {list(fields)} of the container) was not found exactly once: {[q for q, _ in cands]}")
+    q, fn = cands[0]
+    view = flat(ctx, fn, depth=2)
+    return view, q, _loc_stores(view, fields)
+
+
 def check(ctx):
     ctx.not_decided += [
         "ordering/no-duplication across all interleavings of flusher threads (only the ticket pairing is decided)",
         "len()/index consistency across the memory/disk boundary for all op sequences (values)",
         "SQLite backend read-back; $HISTCONTROL filtering semantics",
     ]
-    ctx.rule("R1", "self-indexing container arithmetic: positions computed from JSON_FORMAT equal the constants used by dumps() and LazyJSON._load_index(); every literal appended in _to_json_with_size advances the offset by its length", floor=9)
+    ctx.rule("R1", "self-indexing container arithmetic: positions computed from JSON_FORMAT equal the constants used by dumps() and by the index reader of LazyJSON (the function that stores iloc/ilen/dloc/dlen); every literal appended in _to_json_with_size advances the offset by its length", floor=9)
     ctx.rule("R2", "offsets are character counts used as byte offsets: no json.dumps in the writer may emit non-ASCII (ensure_ascii=False)", floor=3)
     ctx.rule("R3", "in-memory counters move together: append grows buffer and _len on the same paths; every filtered command in the flusher is accounted by skip(1); flush snapshots the buffer before resetting it", floor=5)
     ctx.rule("R4", "FIFO ticket protocol: every queue.append(self) is followed on every normal path by wait_for(front) .. popleft() .. notify_all() under the condition; the front test compares with queue[0]", floor=6)
@@ -126,17 +170,22 @@ def check(ctx):
         ctx.ob("R1", f"{LJ}:dumps", f"dloc = iloc + ilen + <length of the literal between index and data> ({want_gap})", ok, key="dumps|dloc-gap", detail=f"found {v_dloc}", where=loc(d))
     for w in ("iloc", "ilen", "dloc", "dlen"):
         ctx.ob("R1", f"{LJ}:JSON_FORMAT", f"field {w} is right-aligned to a fixed width (so later positions are constant)", layout[w][1] is not None and layout[w][1] >= 10, key=f"format|{w}-width")
-    li = lj.func("LazyJSON._load_index")
+    # the index reader, by role: the function of the module that stores the location fields of the container
+    # (the leading fixed-width fields of JSON_FORMAT) on the object - a method of its own today, equally part of
+    # the constructor or a module-level function; looked at in its helper-transparent view, so that a seek/read
+    # moved into a helper of the reader still counts
+    li, li_q, stores = _index_reader(ctx, lj, order[:4])
+    li_site = f"{LJ}:{li_q}"
     seeks = [c for c in calls_in(li) if last_attr(c) == "seek" and c.args and isinstance(const_value(c.args[0]), int)]
     reads = [c for c in calls_in(li) if last_attr(c) == "read" and c.args and isinstance(const_value(c.args[0]), int)]
     ok = len(seeks) == 1 and const_value(seeks[0].args[0]) == want_seek
-    ctx.ob("R1", f"{LJ}:LazyJSON._load_index", f"reader seeks to the '[' of the locs list ({want_seek})", ok, key="load_index|seek", detail=f"found {[const_value(c.args[0]) for c in seeks]}", where=loc(li))
+    ctx.ob("R1", li_site, f"reader seeks to the '[' of the locs list ({want_seek})", ok, key="load_index|seek", detail=f"found {[const_value(c.args[0]) for c in seeks]}", where=loc(li))
     ok = len(reads) == 1 and const_value(reads[0].args[0]) == want_read
-    ctx.ob("R1", f"{LJ}:LazyJSON._load_index", f"reader reads exactly the locs list ({want_read} characters)", ok, key="load_index|read", detail=f"found {[const_value(c.args[0]) for c in reads]}", where=loc(li))
-    # unpack order of locs equals field order in the format
-    unp = [n for n in walk_local(li) if isinstance(n, ast.Assign) and isinstance(n.targets[0], ast.Tuple)]
-    ok = any([unparse(e) for e in n.targets[0].elts] == ["self.iloc", "self.ilen", "self.dloc", "self.dlen"] for n in unp)
-    ctx.ob("R1", f"{LJ}:LazyJSON._load_index", "locs are unpacked in the order the writer emits them", ok, key="load_index|order")
+    ctx.ob("R1", li_site, f"reader reads exactly the locs list ({want_read} characters)", ok, key="load_index|read", detail=f"found {[const_value(c.args[0]) for c in reads]}", where=loc(li))
+    # unpack order of locs equals field order in the format: every location field is stored exactly once, from the
+    # position of the list the writer puts it at, all on one object and out of one list
+    ok = sorted(w for w, *_ in stores) == sorted(order[:4]) and all(pos == order.index(w) for w, pos, _, _ in stores) and len({(b, s_) for _, _, b, s_ in stores}) == 1
+    ctx.ob("R1", li_site, "locs are unpacked in the order the writer emits them", ok, key="load_index|order", detail=f"found {[(w, pos) for w, pos, _, _ in stores]}", where=loc(li))
     # data reads are relative to dloc
     lo = lj.func("LJNode._load_or_node")
     ok = any(last_attr(c) == "seek" and c.args and unparse(c.args[0]) in ("self.root.dloc + offset", "offset + self.root.dloc") for c in calls_in(lo))
@@ -555,7 +604,7 @@ META = {
     "technique": "static analysis: format-string layout arithmetic (string.Formatter) against writer/reader constants, literal-length vs offset-increment pairing, CFG must-pass-through for counters, the ticket protocol and the history append",
     "text": "Decides the clauses of the property that are shapes of the code: the position of {index}, the gap to "
     "{data} and the extent of the locs list are computed from JSON_FORMAT and compared with the constants in dumps() "
-    "(69, +11) and LazyJSON._load_index (seek 9 / read 48); in _to_json_with_size every appended literal advances "
+    "(69, +11) and the index reader of LazyJSON (seek 9 / read 48); in _to_json_with_size every appended literal advances "
     "the running offset by its length; no writer call can emit non-ASCII, which is what makes character offsets "
     "valid byte offsets for any Unicode content; buffer.append and _len += 1 are on the same paths, every filtered "
     "command is accounted by skip(1), flush snapshots before reset; each ticket in the FIFO queue is waited for, "
